@@ -190,8 +190,10 @@ func (vc *VC) singleScriptOpt(target *Obligation, model bool, deep bool) string 
 	}
 	instantiateAll := func(goalSx *Sx) {
 		termSet := map[string]bool{}
+		termSort := map[string]string{}
 		for _, t := range terms {
 			termSet[t.name] = true
+			termSort[t.name] = t.sort
 		}
 		rounds := 1
 		if deep {
@@ -204,7 +206,11 @@ func (vc *VC) singleScriptOpt(target *Obligation, model bool, deep bool) string 
 		for round := 0; round < rounds && total < 600; round++ {
 			var cur []skolem
 			for t := range termSet {
-				cur = append(cur, skolem{t, offSort})
+				srt := termSort[t]
+				if srt == "" {
+					srt = offSort // index terms of inner arrays
+				}
+				cur = append(cur, skolem{t, srt})
 			}
 			sort.Slice(cur, func(i, j int) bool { return cur[i].name < cur[j].name })
 			if len(cur) > 48 {
